@@ -49,7 +49,8 @@ Inductive expr : Set :=
 | EIndex (l i : expr)                      (* l[i] *)
 | ESlice (l : expr) (s e : option expr)    (* l[s:e] *)
 | EDot (l : expr)                          (* l.key *)
-| EAssert (e : expr) (t : sty).            (* e.(T) *)
+| EAssert (e : expr) (t : sty)             (* e.(T) *)
+| ELoopVar (rng : expr).                   (* the loop variable x of  for x := range rng , used in the loop body *)
 
 (* one step of an assignment target chain  v[i]  v.k  — and the forms that
    are never targets: a slice, a type assertion *)
